@@ -3,6 +3,7 @@ package main
 // Calls: builtins, intrinsics (modelled library functions), contract calls, inlining, closures, invariants.
 
 import (
+	"go/token"
 	"fmt"
 	"go/types"
 	"sort"
@@ -62,7 +63,7 @@ var pureAllow = []string{
 	"github.com/kubewharf/kubegateway/pkg/util/tracing", "github.com/gobeam/stringy", "encoding/json", "bytes", "unicode/utf8",
 	"k8s.io/apimachinery/pkg/util/sets", "k8s.io/kubernetes/pkg/apis/core/validation", "k8s.io/apimachinery/pkg/api/validation", "k8s.io/client-go/util/cert", "k8s.io/client-go/util/keyutil", "k8s.io/apimachinery/pkg/runtime/schema", "k8s.io/apimachinery/pkg/types", "crypto/x509", "encoding/pem", "crypto/tls", "hash/fnv", "regexp",
 	"k8s.io/apiserver/pkg/endpoints/request", "k8s.io/apiserver/pkg/authentication/user", "k8s.io/apiserver/pkg/authorization/authorizer", "k8s.io/apiserver/pkg/authentication/serviceaccount",
-	"context", "k8s.io/apimachinery/pkg/api/equality", "k8s.io/apimachinery/third_party/forked/golang/reflect", "k8s.io/apimachinery/pkg/conversion",
+	"context", "golang.org/x/net/http/httpguts", "github.com/kubewharf/kubegateway/pkg/util/reverseproxy/ascii", "k8s.io/apimachinery/pkg/api/equality", "k8s.io/apimachinery/third_party/forked/golang/reflect", "k8s.io/apimachinery/pkg/conversion",
 }
 
 func isPureAllowed(path string) bool {
@@ -257,6 +258,32 @@ func (fr *frame) call(v *ssa.Call, cc *ssa.CallCommon, st *State, R string, b *s
 					name := fc.appFun(ss, P.SortOf(v.Type()))
 					fc.fact("", "(= %s (%s %s %s))", resName, name, fr.val(cc.Value), strings.Join(as, " "))
 					return
+				}
+			}
+		}
+		// a function-typed struct field under contract: extern "pkg".(T).field_F(recv, args...)
+		if ld, ok := cc.Value.(*ssa.UnOp); ok && ld.Op == token.MUL {
+			if fa, ok := ld.X.(*ssa.FieldAddr); ok {
+				if pt, ok := fa.X.Type().Underlying().(*types.Pointer); ok {
+					if n, ok := pt.Elem().(*types.Named); ok && n.Obj().Pkg() != nil {
+						if stt, ok := n.Underlying().(*types.Struct); ok {
+							key := n.Obj().Pkg().Path() + "::(" + n.Obj().Name() + ").field_" + stt.Field(fa.Field).Name()
+							if c, ok := fc.eng.Spec.Funcs[key]; ok {
+								argTerms := []string{fr.val(fa.X)}
+								argTypes := []types.Type{fa.X.Type()}
+								for _, a := range cc.Args {
+									argTerms = append(argTerms, fr.val(a))
+									argTypes = append(argTypes, a.Type())
+								}
+								var resT types.Type
+								if v != nil {
+									resT = v.Type()
+								}
+								fr.applyContract(c, nil, cc, argTerms, argTypes, resName, resT, st, R, v)
+								return
+							}
+						}
+					}
 				}
 			}
 		}
